@@ -201,7 +201,7 @@ func runAddrlistSeq(rep *vset, max int, clientIP net.IP, ops []alOp, seq []int, 
 				ms = append(ms, me{a, e.push})
 			}
 			sort.Slice(ms, func(i, j int) bool { return ms[i].push > ms[j].push }) // newest first
-			cut := ms[max-1].push                                                 // push number of the oldest survivor
+			cut := ms[max-1].push                                                  // push number of the oldest survivor
 			stored := map[string]bool{}
 			for _, e := range entries {
 				stored[e.Addr] = true
